@@ -501,6 +501,7 @@ fn run_c02_c03(cfg: &Cfg, prop: &str) {
             rep.sample(obj(vec![("scenario", sc.to_json()), ("exact_results_first3", J::A(rx.1.iter().take(3).map(out_json).collect()))]));
         }
     }
+    periodic_partial_mismatch(&mut rep, &mut rng, thorough);
     rep.finish("cubic-spline scenarios: n = 3, 4, 5 and up to the tier's bound, axes unit / uniform / random / mesh ratio up to 64 / geometric / default, all boundary selections (NotAKnot, Natural, Clamped, Periodic, Individual with random Mixed pairs and derivative values; for C03 additionally every ordered pair of the five single-end conditions at n = 3, 4, 6), 0-3 trailing axes, 5 abscissae per interval; exact run: coefficients a,b and values compared with the model in Coq, oracle = cubic fitted through the implementation's own exact samples (on one cubic, knot values, S' and S'' continuous, end conditions); f64/f32 within 2^-30 / 2^-10 of the exact values; non-trivial = distinct scenario");
 }
 
@@ -842,14 +843,23 @@ pub fn run_c07(cfg: &Cfg) {
         }
         if ci == 0 { rep.sample(obj(vec![("scenario", sc.to_json())])); }
     }
+    periodic_partial_mismatch(&mut rep, &mut rng, thorough);
+    // Periodic without extrapolation behaves like any other boundary; non-periodic + extrapolate does not wrap
+    rep.finish("periodic data sets (n >= 3, all spline axis classes, 0-3 trailing axes) with extrapolation; queries: points of [x0,xn), both ends, the floats adjacent to the ends, and their exact images x + k*P for k in +-1, +-3, +-100, +-10^6; exact run: S(x+kP) == S(x) exactly, ends and their images give y0; model compared in Coq (values and coefficients); f64 within the bound given by the rounding of the wrapped argument");
+}
+
+/// data whose end rows differ in SOME lanes only is not periodic: it must be refused at build time (otherwise
+/// the right end and its periodic images S(xn + kP) = S(x0) disagree in those lanes, and S' / S'' do not match
+/// at the ends there)
+pub fn periodic_partial_mismatch(rep: &mut Report, rng: &mut Rng, thorough: bool) {
     // data whose end rows differ in SOME lanes only is not periodic: it must be refused (otherwise the right
     // end and its periodic images S(xn + kP) = S(x0) disagree in those lanes)
     for _ in 0..(if thorough { 300 } else { 40 }) {
         let n = rng.range(3, 8) as usize;
-        let (axv, _class) = gen_spline_axis(&mut rng, n);
+        let (axv, _class) = gen_spline_axis(rng, n);
         let trail = match rng.below(3) { 0 => vec![2], 1 => vec![3], _ => vec![2, 2] };
         let lanes: usize = trail.iter().product();
-        let mut rows = gen_rows(&mut rng, n, lanes, true);
+        let mut rows = gen_rows(rng, n, lanes, true);
         rows[n - 1] = rows[0].clone();
         let bad = rng.below(lanes as u64) as usize;
         rows[n - 1][bad] = rows[0][bad] + 1.0;
@@ -865,8 +875,6 @@ pub fn run_c07(cfg: &Cfg) {
                      obj(vec![("scenario", sc.to_json()), ("S_xn", out_json(&rx.1.get(0).cloned().unwrap_or(Out::Oob))), ("S_xn_plus_P", out_json(&rx.1.get(1).cloned().unwrap_or(Out::Oob)))]));
         }
     }
-    // Periodic without extrapolation behaves like any other boundary; non-periodic + extrapolate does not wrap
-    rep.finish("periodic data sets (n >= 3, all spline axis classes, 0-3 trailing axes) with extrapolation; queries: points of [x0,xn), both ends, the floats adjacent to the ends, and their exact images x + k*P for k in +-1, +-3, +-100, +-10^6; exact run: S(x+kP) == S(x) exactly, ends and their images give y0; model compared in Coq (values and coefficients); f64 within the bound given by the rounding of the wrapped argument");
 }
 
 // ---------------------------------------------------------------- C15: units and linearity
